@@ -26,7 +26,7 @@ from fractions import Fraction
 from pathlib import Path
 
 sys.path.insert(0, str(Path(__file__).resolve().parent.parent))
-from vf.common import write_if_changed  # noqa: E402
+from vf.common import write_if_changed, GEN  # noqa: E402
 
 VERIF = Path(__file__).resolve().parent.parent
 REPO = Path(os.environ.get("SCICO_REPO", "/repo"))
@@ -1194,7 +1194,7 @@ def main():
     ap.add_argument("--unit", action="append", default=[])
     ap.add_argument("--repo", default=str(REPO))
     ap.add_argument("--src", default=None, help="translate this file instead of the unit's file (scratch copies)")
-    ap.add_argument("--out", default=str(VERIF / "coq" / "gen"))
+    ap.add_argument("--out", default=str(GEN))
     a = ap.parse_args()
     units = list(UNITS) if a.all or not a.unit else a.unit
     status = 0
